@@ -33,6 +33,9 @@ pub enum DOp {
     /// tick until the matcher reports that it is idle (bounded), then the streams nothing can
     /// reach any more must be gone
     Settle,
+    /// raw vector only: an iterator that reports u32::MAX - k items and yields none (the reservation counter
+    /// leaves the 32-bit range; later pushes fail); everything stored before must still be destroyed once
+    ExtendHuge { k: u8 },
 }
 
 #[derive(Clone, Debug, Serialize, Deserialize, Hash)]
@@ -324,7 +327,7 @@ fn run_plain(c: &DropCase, st: &mut St, beyond: &mut bool, had_restart: &mut boo
                         }
                     }
                 }
-                DOp::Get { .. } | DOp::Race { .. } => {}
+                DOp::Get { .. } | DOp::Race { .. } | DOp::ExtendHuge { .. } => {}
             }
             if handles.iter().any(|h| h.injected_items() > 32) {
                 *beyond = true;
@@ -354,6 +357,9 @@ fn fixed_templates() -> Vec<DropCase> {
             // the old stream has to go once matcher, snapshot and injectors have left it (empty and non-empty pattern)
             DropCase { nucleo: true, capacity: 0, columns: 1, threads: 1, ops: vec![DOp::Extend { n: 40, lie: 0, panic_at: 200, text: 1 }, DOp::Settle, DOp::DropInjector { sel: 0, on_thread: false }, DOp::Restart { clear: false }, DOp::Settle, DOp::NewInjector, DOp::Push { text: 1, panic: false }, DOp::Settle], drop_on_thread: false, plain: false },
             DropCase { nucleo: true, capacity: 0, columns: 2, threads: 2, ops: vec![DOp::Reparse { sel: 0 }, DOp::Extend { n: 40, lie: 0, panic_at: 200, text: 1 }, DOp::Settle, DOp::Restart { clear: true }, DOp::Settle, DOp::DropInjector { sel: 0, on_thread: true }, DOp::Settle], drop_on_thread: true, plain: false },
+            // the reservation counter leaves the 32-bit range after items were stored
+            DropCase { nucleo: false, capacity: 0, columns: 1, threads: 1, ops: vec![DOp::Push { text: 1, panic: false }, DOp::Push { text: 2, panic: false }, DOp::Push { text: 3, panic: false }, DOp::ExtendHuge { k: 0 }, DOp::Push { text: 4, panic: false }], drop_on_thread: false, plain: false },
+            DropCase { nucleo: false, capacity: 33, columns: 2, threads: 1, ops: vec![DOp::Extend { n: 40, lie: 0, panic_at: 200, text: 1 }, DOp::ExtendHuge { k: 7 }, DOp::Extend { n: 3, lie: 0, panic_at: 200, text: 1 }], drop_on_thread: true, plain: false },
             // plain items: only the columns own memory
             DropCase { nucleo: false, capacity: 0, columns: 2, threads: 1, ops: vec![DOp::Extend { n: 60, lie: 0, panic_at: 200, text: 1 }, DOp::Push { text: 2, panic: false }], drop_on_thread: false, plain: true },
             DropCase { nucleo: true, capacity: 0, columns: 1, threads: 1, ops: vec![DOp::Extend { n: 60, lie: 3, panic_at: 200, text: 1 }, DOp::Push { text: 2, panic: false }, DOp::Settle, DOp::Restart { clear: true }, DOp::NewInjector, DOp::Push { text: 2, panic: false }, DOp::Settle], drop_on_thread: true, plain: true },
@@ -406,6 +412,7 @@ impl Check for C11 {
             5 => any::<u8>().prop_map(|sel| DOp::Reparse { sel }),
             6 => any::<u8>().prop_map(|extra| DOp::Race { extra }),
             6 => Just(DOp::Settle),
+            2 => (0u8..32).prop_map(|k| DOp::ExtendHuge { k }),
         ];
         (any::<bool>(), proptest::sample::select(vec![0u16, 1, 32, 33, 100]), 1u8..=3, 1u8..=3, proptest::collection::vec(op, 1..=18), any::<bool>(), proptest::bool::weighted(0.15)).prop_map(|(nucleo, capacity, columns, threads, ops, drop_on_thread, plain)| DropCase { nucleo, capacity, columns, threads, ops, drop_on_thread, plain }).boxed()
     }
@@ -428,6 +435,13 @@ impl Check for C11 {
                     DOp::Push { text, panic } => do_push(&|t, f| v.push(t, f), 0, cols, *text, *panic, &mut st),
                     DOp::Extend { n, lie, panic_at, text } => do_extend(&|it, f| v.extend(it, f), 0, cols, *n as usize, *lie, *panic_at as usize, *text, &mut st),
                     DOp::Race { extra } => race(&v, cols, *extra, &mut st),
+                    DOp::ExtendHuge { k } => {
+                        let reported = u32::MAX as usize - (*k as usize % 32);
+                        if guarded(|| v.extend(Lying { inner: Vec::<Tracked>::new().into_iter(), reported }, |_, _| {})).is_err() {
+                            st.any_panic = true;
+                        }
+                        st.labels.push("index-space-exhausted");
+                    }
                     _ => {}
                 }
                 check_alive(&|i| v.get(i).map(|it| (it.data.id, it.data.intact(), it.matcher_columns.len())), v.count(), &mut st, &when);
@@ -470,7 +484,7 @@ impl Check for C11 {
                             do_extend(&|it, f| inj.extend(it, f), *s, cols, *n as usize, *lie, *panic_at as usize, *text, &mut st)
                         }
                     }
-                    DOp::Get { .. } | DOp::Race { .. } => {}
+                    DOp::Get { .. } | DOp::Race { .. } | DOp::ExtendHuge { .. } => {}
                     DOp::Tick => {
                         if !nuc.tick(10).running {
                             settled = true;
